@@ -128,14 +128,12 @@ def rule_armers(ctx, M, units):
                     ctx.fail("C16.ARMERS", where, "set_ready(%s) at a site that is not an allowed armer" % short(idx), site=s.where)
             elif c.name == "set_all_ready":
                 if u is not None and u.family == "zip":
-                    alls = [x for x in bi.sites if x.callee.name == "all"]
+                    # only the genuine all-slots-filled test counts: state.iter().all(|s| s.is_ready())
+                    from . import c09
                     te = []
-                    for x in alls:
-                        te += bi.outcome_edges(x, True)
-                        for e in bi.phi_tests_fed_by(x):
-                            ed = bi.edge(e, True)
-                            if ed:
-                                te.append(ed)
+                    for site_, te_, fe_, full_, pred_ in c09.all_ready_tests(M, u):
+                        if full_ and pred_:
+                            te += te_
                     ok = bool(te) and bi.guarded_by(s.block, te)
                     ctx.check(ok, "C16.ARMERS", where, "set_all_ready only on the full-row path", site=s.where)
                 else:
